@@ -5,16 +5,26 @@ from hypothesis import strategies as st
 
 # --------------------------------------------------------------------------------------- C11
 C11_TASKS = ["A", "B", "C", "W", "S", "N"]       # N: workflow with the workflow W as a node
-C11_PLANT_IDENTS = ["A", "B", "C", "E", "W"]
-PLANT_KINDS = ["empty", "jobonly", "zero"]
+C11_PLANT_IDENTS = ["A", "B", "C", "E", "W", "N"]
+PLANT_KINDS = ["empty", "jobonly", "zero", "trunc"]
+# "trunc": _result.pklz is a proper, non-empty prefix of a pickle stream (the writer died half-way);
+# the op carries "cut": the length of the prefix in permille of the complete stream
+
+
+@st.composite
+def c11_plant(draw, idents=None, roots=(0, 1, 2)):
+    op = dict(op="plant", ident=draw(st.sampled_from(list(idents or C11_PLANT_IDENTS))),
+              root=draw(st.sampled_from(list(roots))), kind=draw(st.sampled_from(PLANT_KINDS)))
+    if op["kind"] == "trunc":
+        op["cut"] = draw(st.sampled_from([1, 10, 250, 500, 900, 999]) | st.integers(1, 999))
+    return op
 
 
 @st.composite
 def c11_op(draw, cf_weight=1):
     roots = [0, 1, 2]
     if draw(st.integers(0, 4)) == 4:
-        return dict(op="plant", ident=draw(st.sampled_from(C11_PLANT_IDENTS)),
-                    root=draw(st.sampled_from(roots)), kind=draw(st.sampled_from(PLANT_KINDS)))
+        return draw(c11_plant())
     root = draw(st.sampled_from(roots))
     others = [r for r in roots if r != root]
     ro = draw(st.sampled_from([[], [], others[:1], others[1:], others, others[::-1]]))
@@ -40,8 +50,7 @@ def c11_followups(draw, cf_weight=6):
                 worker="debug")]
     for _ in range(draw(st.integers(1, 3))):
         if draw(st.integers(0, 5)) == 5:
-            ops.append(dict(op="plant", ident=draw(st.sampled_from(C11_PLANT_IDENTS)),
-                            root=draw(st.sampled_from(roots)), kind=draw(st.sampled_from(PLANT_KINDS))))
+            ops.append(draw(c11_plant()))
         if draw(st.integers(0, 2)) == 2:            # move: the earlier root becomes a read-only cache
             new = draw(st.sampled_from([r for r in roots if r != root]))
             ro, root = [root], new
@@ -50,6 +59,38 @@ def c11_followups(draw, cf_weight=6):
         ops.append(dict(op="submit", task=task, root=root, ro=ro,
                         rerun=draw(st.integers(0, 3)) > 0, prop=draw(st.integers(0, 2)) > 0,
                         worker="cf" if draw(st.integers(0, 11)) < cf_weight else "debug"))
+    return dict(ops=ops)
+
+
+@st.composite
+def c11_leftover_scenarios(draw):
+    """Something is submitted to one location; leftovers (drawn kind) of the identity of the thing
+    submitted NEXT, or of identities inside it, are planted in other locations; then 1..2
+    submissions (mostly without rerun) use another location as cache root and list the first one
+    - and possibly the third - as read-only caches in a drawn order: an incomplete directory
+    listed BEFORE the location with the complete result is met in most cases instead of by luck.
+    The first thing is mostly the same as the next one, else any other of the pool (shared node
+    identities: a task cached first, then a workflow that has it as a node; a workflow cached
+    first, then the workflow that holds it as a node)."""
+    from vlib.ref.cachehist import all_idents
+
+    roots = [0, 1, 2]
+    task = draw(st.sampled_from(C11_TASKS))
+    t1 = task if draw(st.integers(0, 2)) else draw(st.sampled_from(C11_TASKS))
+    first = draw(st.sampled_from(roots))
+    ops = [dict(op="submit", task=t1, root=first, ro=[], rerun=False, prop=draw(st.booleans()),
+                worker="debug")]
+    inside = [i for i in all_idents(task) if i in C11_PLANT_IDENTS]
+    inside = inside[:1] * 2 + inside          # the outermost plantable identity preferred
+    others = [r for r in roots if r != first]
+    for _ in range(draw(st.integers(1, 2))):
+        ops.append(draw(c11_plant(idents=inside, roots=others)))
+    for _ in range(draw(st.integers(1, 2))):
+        root = draw(st.sampled_from(others))
+        third = [r for r in others if r != root]
+        ro = draw(st.sampled_from([[first], third + [first], [first] + third]))
+        ops.append(dict(op="submit", task=task, root=root, ro=ro, rerun=draw(st.integers(0, 5)) == 0,
+                        prop=draw(st.booleans()), worker="debug"))
     return dict(ops=ops)
 
 
